@@ -185,6 +185,19 @@ func (x *Idx) Analyse(fns []*ssa.Function) {
 				case *ssa.ChangeType:
 					set(v, x.iter[v.X])
 				}
+				// copy(dst, indexSlice): dst (and the array it is a window of) now holds vertex ids
+				if c, ok := in.(*ssa.Call); ok && ssau.Builtin(c) == "copy" && len(c.Call.Args) == 2 && x.iter[c.Call.Args[1]] == IndexIter {
+					d := c.Call.Args[0]
+					set(d, IndexIter)
+					for depth := 0; depth < 6; depth++ {
+						sl, ok := d.(*ssa.Slice)
+						if !ok {
+							break
+						}
+						d = sl.X
+						set(d, IndexIter)
+					}
+				}
 				// append(dst, indexSlice...) : dst now holds vertex ids too (package modeling's Append)
 				if c, ok := in.(*ssa.Call); ok && ssau.Builtin(c) == "append" && len(c.Call.Args) == 2 {
 					if _, isSlice := c.Call.Args[1].Type().Underlying().(*types.Slice); isSlice {
